@@ -135,6 +135,21 @@ def opsTl : List (String × Handler) := [
     | [wc, sh, sq, r, f] => match wc.toNat?, sh.toNat?, sq.toNat?, hexArg r, hexArg f with
       | some w, some s, some q, some root, some file => s!"ok {hexOut (blockIdExtTL w s q root file)}"
       | _, _, _, _, _ => "bad-op"
+    | _ => "bad-op"),
+  ("tl.hw.accountid.dec", fun
+    | [h] => match hexArg h with
+      | some bs => outcomeStr (accountIdUnTL bs) (fun ((wc, a), r) => s!"ok {wc} {hexOut a} {hexOut r}")
+      | none => "bad-op"
+    | _ => "bad-op"),
+  ("tl.hw.blockidext.dec", fun
+    | [h] => match hexArg h with
+      | some bs => outcomeStr (blockIdExtUnTL bs) (fun (wc, sh, sq, r, f) => s!"ok {wc} {sh} {sq} {hexOut r} {hexOut f}")
+      | none => "bad-op"
+    | _ => "bad-op"),
+  ("tl.hw.int256.dec", fun
+    | [h] => match hexArg h with
+      | some bs => outcomeStr (int256UnTL bs) (fun (a, r) => s!"ok {hexOut a} {hexOut r}")
+      | none => "bad-op"
     | _ => "bad-op")
 ]
 
